@@ -98,7 +98,7 @@ def raw_io_extents(F, S, fns, side="Read"):
                 continue
             n += 1
             ptr = fn.term(nd["args"][0])
-            sz = fn.term(nd["args"][1])
+            sz = fn.xterm(nd["args"][1])
             if sz[0] == "op" and sz[1] == "*" and ("const", 1) in (sz[2], sz[3]):
                 sz = sz[3] if sz[2] == ("const", 1) else sz[2]
             site = final_site_facts(eng, fn, nd["id"]) or set()
